@@ -38,7 +38,7 @@ def cases(seed, tier):
         else:
             P = gdirect.gen(prng, partial_joins=not det, merges=not det,
                             max_tasks=7)
-        if i % 6 == 1 and P.get('children'):
+        if (i % 6 == 1 and P.get('children')) or i % 6 == 3:
             # a fail / succeed command on an asynchronous task of the parent
             # of a tree (a command processed on resume ends the parent
             # while its sub-workflow is being resumed)
@@ -433,10 +433,24 @@ def _pause_command_part(case, base, res, brng):
              for ti, T in enumerate(Q['tasks'])
              if T['name'] in ran and T['edges'] and not T.get('workflow')]
     brng.shuffle(cands)
+    # a task that carries a fail / succeed command first: the pause goes
+    # right in front of that command ("[pause, fail]": the stop command
+    # waits in the backlog while other branches complete)
+    cmd_first = [c for c in cands if any(
+        e['to'] in ('fail', 'succeed') for e in
+        gdirect.all_programs(P)[c[0]]['tasks'][c[1]]['edges'])]
+    cands = cmd_first + [c for c in cands if c not in cmd_first]
     for n_c, (qi, ti) in enumerate(cands[:3]):
         P2 = copy.deepcopy(P)
         T = gdirect.all_programs(P2)[qi]['tasks'][ti]
-        if n_c == 2 and not T.get('policies') and \
+        cmd_idx = [i for i, e in enumerate(T['edges'])
+                   if e['to'] in ('fail', 'succeed') and
+                   e['clause'] != 'on-error']
+        if n_c == 0 and cmd_idx:
+            clause, pos = T['edges'][cmd_idx[0]]['clause'], cmd_idx[0]
+            T['edges'].insert(pos, {'clause': clause, 'to': 'pause',
+                                    'guard': None, 'form': 'list'})
+        elif n_c == 2 and not T.get('policies') and \
                 T.get('with_items') is None:
             # ... or through the pause-before policy of a task
             T['policies'] = {'pause-before': True}
@@ -455,6 +469,26 @@ def _pause_command_part(case, base, res, brng):
             T['edges'].insert(pos, {'clause': clause, 'to': 'pause',
                                     'guard': None, 'form': 'list'})
         c2 = dict(case, program=P2)
+        if n_c == 0 and cmd_idx:
+            # other delivery orders as well: which branches complete while
+            # the stop command waits in the backlog is the point
+            for extra in range(4):
+                c3 = dict(c2, strategy={
+                    'name': brng.choice(['random', 'lifo', 'pct']),
+                    'seed': brng.randint(0, 10 ** 6)})
+                r3 = ec.execute(c3, auto_resume=True)
+                res['executions'] += 1
+                _collect(res, r3)
+                if r3.inconclusive:
+                    res['inconclusive'] = 'pause command: %s' % \
+                        r3.inconclusive
+                    continue
+                for v in r3.violations:
+                    res['violations'].append(dict(v, pause_command={
+                        'pause_command_in': T['name'], 'clause': clause,
+                        'position': pos, 'strategy': c3['strategy']}))
+                res['monitor_evaluations']['pause-command'] = \
+                    res['monitor_evaluations'].get('pause-command', 0) + 1
         run = ec.execute(c2, auto_resume=True)
         res['executions'] += 1
         _collect(res, run)
